@@ -158,6 +158,73 @@ pub fn halfword_sweep_cells(depth: u8) -> Vec<u64> {
       }
     }
   }
+  v.extend(periodic_cells(depth));
+  v.sort();
+  v.dedup();
+  v
+}
+
+/// Periodic coordinates: values whose bit pattern repeats with period 16 (EVERY 16-bit value v
+/// written in both half-words, `v | v << 16`, cut to the depth), and with period 1, 2, 4, 8 (every
+/// pattern), paired with the same / another periodic / a generic value of the other coordinate.
+/// Code that splits a hash or a coordinate in words and treats "both words equal" (or an all-equal
+/// byte pattern) specially is exercised by exactly these cells and by no other class.
+pub fn periodic_pairs(depth: u8) -> Vec<(u32, u32)> {
+  let mut v: Vec<(u32, u32)> = vec![];
+  if depth < 9 {
+    return v;
+  }
+  let n = 1u64 << depth;
+  let mask = (n - 1) as u32;
+  let rep16 = |w: u32| -> u32 { ((w & 0xFFFF) | ((w & 0xFFFF) << 16)) & mask };
+  let mut push = |i: u32, j: u32| {
+    v.push((i, j));
+    v.push((j, i));
+  };
+  if depth > 16 {
+    for w in 0..65536u32 {
+      let i = rep16(w);
+      push(i, i);
+      push(i, rep16(3));
+      push(i, rep16(w ^ 5));
+      push(i, rep16(w.wrapping_mul(7).wrapping_add(1)));
+      push(i, (0x2C9A5u32.wrapping_mul(5).wrapping_add(2) & mask) | 1);
+    }
+  }
+  let mut pats: Vec<u32> = vec![];
+  for p in [1u32, 2, 4, 8] {
+    for pat in 0..(1u32 << p) {
+      let mut x = 0u32;
+      let mut k = 0;
+      while k < 32 {
+        x |= pat << k;
+        k += p;
+      }
+      pats.push(x & mask);
+    }
+  }
+  pats.sort();
+  pats.dedup();
+  for (a, &i) in pats.iter().enumerate() {
+    for (b, &j) in pats.iter().enumerate() {
+      if a == b || (a + b) % 7 == 0 || j == (!i & mask) {
+        push(i, j);
+      }
+    }
+    push(i, (0x51234u32.wrapping_mul(7).wrapping_add(3) & mask) | 1);
+  }
+  v.sort();
+  v.dedup();
+  v
+}
+
+/// The periodic pairs as cells of an equatorial and of a polar base cell.
+pub fn periodic_cells(depth: u8) -> Vec<u64> {
+  let mut v = vec![];
+  for (i, j) in periodic_pairs(depth) {
+    v.push(encode(depth, 5, i, j));
+    v.push(encode(depth, 1, i, j));
+  }
   v.sort();
   v.dedup();
   v
